@@ -935,3 +935,25 @@ func checkCompareFilterList(c *Ctx) {
 	}
 	c.runTable(ts, "filter:compareFilterList", pos, ps)
 }
+
+// checkAcceptPurity: every Accept in the repository (combinators and typed
+// filters) is free of stores to shared memory, map updates, channel
+// operations and goroutines: filters are shared between the cache goroutines
+// of every subscription they were given to.
+func checkAcceptPurity(c *Ctx) {
+	n := 0
+	for _, rel := range c.P.repoRels() {
+		for _, f := range c.P.SrcFuncs(rel) {
+			if f.Name() != "Accept" || f.Signature.Recv() == nil || f.Parent() != nil {
+				continue
+			}
+			if typeNameOf(f.Signature.Recv().Type()) == "fnFilter" {
+				continue // the user's function
+			}
+			n++
+			c.useFn(f)
+			checkPure(c, "T-PURE(Accept)", f)
+		}
+	}
+	c.check(n >= 10, "T-PURE(Accept)", "Accept/methods-found", "-", fmt.Sprintf("%d Accept methods", n), fmt.Sprintf("found %d Accept methods, hand-confirmed 10", n))
+}
